@@ -65,13 +65,20 @@ func effectiveOutputs(fn reflectType) ([]reflect.Type, []reflect.Type) {
 	return inputs, typesIn(i0)
 }
 
-func (c Collection) netFlows(f func(fm *provider) ([]reflect.Type, []reflect.Type)) ([]reflect.Type, []reflect.Type) {
+// netFlows walks the providers in the direction the values travel: down flows
+// from the first provider to the last, up flows (reverse) from the last provider
+// to the first.
+func (c Collection) netFlows(reverse bool, f func(fm *provider) ([]reflect.Type, []reflect.Type)) ([]reflect.Type, []reflect.Type) {
 	available := make(interfaceMap)
 	seenIn := make(map[reflect.Type]struct{})
 	uniqueIn := make([]reflect.Type, 0, len(c.contents)*4)
 	seenOut := make(map[reflect.Type]struct{})
 	uniqueOut := make([]reflect.Type, 0, len(c.contents)*4)
-	for i, fm := range c.contents {
+	for i := range c.contents {
+		fm := c.contents[i]
+		if reverse {
+			fm = c.contents[len(c.contents)-1-i]
+		}
 		inputs, outputs := f(fm)
 		inputsByType := make(map[reflect.Type]struct{})
 		for _, input := range inputs {
@@ -111,7 +118,7 @@ func (c Collection) netFlows(f func(fm *provider) ([]reflect.Type, []reflect.Typ
 // If a type is used both as input and as output for the same provider,
 // then that type counts as an input only.
 func (c Collection) DownFlows() ([]reflect.Type, []reflect.Type) {
-	return c.netFlows(func(fm *provider) ([]reflect.Type, []reflect.Type) {
+	return c.netFlows(false, func(fm *provider) ([]reflect.Type, []reflect.Type) {
 		return fm.DownFlows()
 	})
 }
@@ -180,7 +187,7 @@ func effectiveReturns(fn reflectType) ([]reflect.Type, []reflect.Type) {
 // Providers that return TerminalError are a special case and count as
 // producing error.
 func (c Collection) UpFlows() ([]reflect.Type, []reflect.Type) {
-	return c.netFlows(func(fm *provider) ([]reflect.Type, []reflect.Type) {
+	return c.netFlows(true, func(fm *provider) ([]reflect.Type, []reflect.Type) {
 		return fm.UpFlows()
 	})
 }
